@@ -894,12 +894,16 @@ class Checkpoint:
     def gen(rng, shape):
         spec = {'op': 'checkpoint', 'key': 'c%d' % rng.randint(0, 10 ** 6)}
         if rng.random() < 0.4:
-            # `resources` is part of checkpoint's signature (documented, without effect): passing it must not matter
+            # 'Limit the checkpointing only to specific resources, same semantics as load': only these continue
             spec['resources'] = rng.choice([shape[0]['name'], [shape[-1]['name']], 0])
         return spec
 
     @staticmethod
     def shape(spec, shape):
+        if 'resources' in spec:
+            from . import refmodel
+            keep = refmodel.sel(spec['resources'], [r['name'] for r in shape])
+            return [r for r in shape if r['name'] in keep]
         return shape
 
     @staticmethod
